@@ -37,6 +37,8 @@ func checkC14(c *Check) {
 	c14RegexpNoNewGroup(c, "R5b")
 	c14FullMatchAnchorsWhole(c, "R5c")
 	c14KeyColumnUnique(c, "R8")
+	c14PasswordHashedWhole(c, "R9")
+	c14AccountMapInheritedEverywhere(c, "R10")
 	c14Providers(c)
 	c14Mapping(c)
 	c14Gate(c)
